@@ -1207,7 +1207,7 @@ func (e *c07cEnv) probeDecodePublicNearest(c *Ctx) {
 			ecd = e.ecdBig
 		}
 		for kind := 0; kind < 4; kind++ {
-			for _, lp := range []int{1, 3, 8, 17, 24} {
+			for _, lp := range []float64{1, 3, 8, 17, 24, 0.5, 12.5, 22.5} {
 				ls := 1 + c.rng.Intn(e.logMax)
 				slots := 1 << ls
 				vals := e.randComplex(c, slots, 0)
@@ -1217,19 +1217,24 @@ func (e *c07cEnv) probeDecodePublicNearest(c *Ctx) {
 				}
 				pt := ckks.NewPlaintext(e.params, e.params.MaxLevel())
 				pt.LogDimensions.Cols = ls
-				args := fmt.Sprintf("%s slots=%d logprec=%d big=%v kind=%d", e.tag, slots, lp, useBig, kind)
+				args := fmt.Sprintf("%s slots=%d logprec=%g big=%v kind=%d", e.tag, slots, lp, useBig, kind)
+				// 2^logprec to 300 bits (integral part exactly, a fractional half through sqrt 2)
+				twoLp := new(big.Float).SetPrec(300).SetMantExp(big.NewFloat(1), int(math.Floor(lp)))
+				if lp != math.Floor(lp) {
+					twoLp.Mul(twoLp, new(big.Float).SetPrec(300).Sqrt(new(big.Float).SetPrec(300).SetInt64(2)))
+				}
 				d := Try(func() string {
 					if err := ecd.Encode(vals, pt); err != nil {
 						return "encode error"
 					}
-					step := math.Exp2(float64(-lp))
+					step := math.Exp2(-lp)
 					// returns (published, decoded) parts as big.Float pairs
 					var pub, dec []*big.Float
 					bf := func(x float64) *big.Float { return new(big.Float).SetFloat64(x) }
 					switch kind {
 					case 0:
 						p, q := make([]complex128, slots), make([]complex128, slots)
-						if ecd.DecodePublic(pt, p, float64(lp)) != nil || ecd.Decode(pt, q) != nil {
+						if ecd.DecodePublic(pt, p, lp) != nil || ecd.Decode(pt, q) != nil {
 							return "decode error"
 						}
 						for i := range p {
@@ -1238,7 +1243,7 @@ func (e *c07cEnv) probeDecodePublicNearest(c *Ctx) {
 						}
 					case 1:
 						p, q := make([]float64, slots), make([]float64, slots)
-						if ecd.DecodePublic(pt, p, float64(lp)) != nil || ecd.Decode(pt, q) != nil {
+						if ecd.DecodePublic(pt, p, lp) != nil || ecd.Decode(pt, q) != nil {
 							return "decode error"
 						}
 						for i := range p {
@@ -1246,13 +1251,13 @@ func (e *c07cEnv) probeDecodePublicNearest(c *Ctx) {
 						}
 					case 2:
 						p, q := make([]*big.Float, slots), make([]*big.Float, slots)
-						if ecd.DecodePublic(pt, p, float64(lp)) != nil || ecd.Decode(pt, q) != nil {
+						if ecd.DecodePublic(pt, p, lp) != nil || ecd.Decode(pt, q) != nil {
 							return "decode error"
 						}
 						pub, dec = p, q
 					case 3:
 						p, q := make([]*bignum.Complex, slots), make([]*bignum.Complex, slots)
-						if ecd.DecodePublic(pt, p, float64(lp)) != nil || ecd.Decode(pt, q) != nil {
+						if ecd.DecodePublic(pt, p, lp) != nil || ecd.Decode(pt, q) != nil {
 							return "decode error"
 						}
 						for i := range p {
@@ -1261,14 +1266,15 @@ func (e *c07cEnv) probeDecodePublicNearest(c *Ctx) {
 						}
 					}
 					for i := range pub {
-						k := new(big.Float).SetPrec(300).SetMantExp(pub[i], lp)
+						k := new(big.Float).SetPrec(300).Mul(pub[i], twoLp)
 						ki, _ := new(big.Float).SetPrec(300).Add(k, big.NewFloat(0.5)).Int(nil)
 						if k.Sign() < 0 {
 							ki, _ = new(big.Float).SetPrec(300).Sub(k, big.NewFloat(0.5)).Int(nil)
 						}
 						off, _ := new(big.Float).Sub(k, new(big.Float).SetInt(ki)).Float64()
-						if math.Abs(off) > math.Exp2(-30) {
-							return fmt.Sprintf("entry %d is not a multiple of 2^-%d", i, lp)
+						kf, _ := k.Float64()
+						if math.Abs(off) > math.Exp2(-30)+math.Abs(kf)*math.Exp2(-48) {
+							return fmt.Sprintf("entry %d is not a multiple of 2^-%g (off by %.3g steps)", i, lp, off)
 						}
 						diff, _ := new(big.Float).SetPrec(300).Sub(pub[i], dec[i]).Float64()
 						if math.Abs(diff) > step/2*(1+math.Exp2(-30)) {
@@ -1498,6 +1504,214 @@ func (e *c07cEnv) probeOverwrite(c *Ctx) {
 	}
 }
 
+// ---------- precision sweep and bignum accuracy ----------
+
+// c07cTaylor: independent references at `prec` bits (plain Taylor series evaluated with 128 guard bits).
+func c07cTaylorCos(x *big.Float, prec uint) *big.Float {
+	p := prec + 128
+	xx := new(big.Float).SetPrec(p).Mul(x, x)
+	term := new(big.Float).SetPrec(p).SetInt64(1)
+	sum := new(big.Float).SetPrec(p).SetInt64(1)
+	for k := int64(1); k < 400; k++ {
+		term.Mul(term, xx)
+		term.Quo(term, new(big.Float).SetPrec(p).SetInt64((2*k-1)*(2*k)))
+		term.Neg(term)
+		sum.Add(sum, term)
+		if term.Sign() == 0 || term.MantExp(nil) < -int(p) {
+			break
+		}
+	}
+	return sum
+}
+
+func c07cTaylorExp(x *big.Float, prec uint) *big.Float {
+	p := prec + 128
+	term := new(big.Float).SetPrec(p).SetInt64(1)
+	sum := new(big.Float).SetPrec(p).SetInt64(1)
+	for k := int64(1); k < 2000; k++ {
+		term.Mul(term, x)
+		term.Quo(term, new(big.Float).SetPrec(p).SetInt64(k))
+		sum.Add(sum, term)
+		if term.Sign() == 0 || term.MantExp(nil) < -int(p) {
+			break
+		}
+	}
+	return sum
+}
+
+func c07cLog2Abs(x *big.Float) int {
+	if x.Sign() == 0 {
+		return -1 << 20
+	}
+	return x.MantExp(nil)
+}
+
+// probeBignum: bignum.Cos / Sin / Exp / Log against the Taylor references at several precisions.
+func probeBignum(c *Ctx) {
+	for _, prec := range []uint{53, 64, 90, 128, 192, 256, 400} {
+		for i := 0; i < 6; i++ {
+			// arguments: roots-of-unity angles 2*pi*j/m and generic values in (-4, 4)
+			x := new(big.Float).SetPrec(prec)
+			if i < 3 {
+				m := int64([]int{64, 256, 8192}[i])
+				x.Mul(bignum.Pi(prec), new(big.Float).SetPrec(prec).SetInt64(2*int64(1+c.rng.Intn(int(m)-1))))
+				x.Quo(x, new(big.Float).SetPrec(prec).SetInt64(m))
+			} else {
+				x.SetFloat64(float64(c.rng.Intn(1<<20))/float64(1<<17) - 4)
+				x.Add(x, new(big.Float).SetPrec(prec).SetMantExp(big.NewFloat(1), -int(prec)+5))
+			}
+			slack := 12
+			check := func(name string, have, want *big.Float) {
+				d := ""
+				diff := new(big.Float).SetPrec(prec+128).Sub(have, want)
+				if l := c07cLog2Abs(diff); l > -int(prec)+slack+max(0, c07cLog2Abs(want)) {
+					d = fmt.Sprintf("error 2^%d at precision %d", l, prec)
+				}
+				c.Probe("bignum_accuracy", fmt.Sprintf("%s prec=%d x=%s", name, prec, x.Text('g', 20)), "C07/bignum-"+name+"-accuracy", d)
+			}
+			halfPi := new(big.Float).SetPrec(prec + 128).Quo(bignum.Pi(prec+128), big.NewFloat(2))
+			r := Try(func() string {
+				check("cos", bignum.Cos(x), c07cTaylorCos(x, prec))
+				check("sin", bignum.Sin(x), c07cTaylorCos(new(big.Float).SetPrec(prec+128).Sub(x, halfPi), prec))
+				check("exp", bignum.Exp(x), c07cTaylorExp(x, prec))
+				ax := new(big.Float).SetPrec(prec).Abs(x)
+				ax.Add(ax, new(big.Float).SetPrec(prec).SetFloat64(0.125))
+				// log: exp(log y) = y
+				check("log", c07cTaylorExp(bignum.Log(ax), prec), new(big.Float).SetPrec(prec+128).Set(ax))
+				return ""
+			})
+			if r == "panic" {
+				c.Probe("bignum_accuracy", fmt.Sprintf("panic prec=%d", prec), "C07/bignum-panic", "panic")
+			}
+		}
+	}
+}
+
+// probePrecisionSweep: encoders of precision 53 … 256 bits at scales up to 2^(prec-56): Encode -> Decode and
+// IFFT -> FFT are accurate to the encoder's precision (bound derived from prec and the scale, no fixed floor);
+// also through Encoder.ShallowCopy().
+func probePrecisionSweep(c *Ctx) {
+	for _, rt := range []ring.Type{ring.Standard, ring.ConjugateInvariant} {
+		params, err := ckks.NewParametersFromLiteral(ckks.ParametersLiteral{LogN: 5, LogQ: []int{60, 60, 60, 60}, LogP: []int{61}, LogDefaultScale: 45, RingType: rt})
+		if err != nil {
+			panic(err)
+		}
+		logN := params.LogN()
+		for _, prec := range []uint{53, 64, 90, 128, 192, 256} {
+			base := ckks.NewEncoder(params, prec)
+			for _, shallow := range []bool{false, true} {
+				ecd := base
+				if shallow {
+					ecd = base.ShallowCopy()
+				}
+				logS := int(prec) - 56
+				if prec <= 56 {
+					logS = 40
+				}
+				if logS > 200 {
+					logS = 200
+				}
+				if logS < 30 {
+					logS = 30
+				}
+				for _, ls := range []int{params.LogMaxSlots(), 1 + c.rng.Intn(params.LogMaxSlots()-1)} {
+					slots := 1 << ls
+					n := slots
+					if c.rng.Intn(2) == 0 {
+						n = 1 + c.rng.Intn(slots) // shorter than the slot count
+					}
+					args := fmt.Sprintf("ring=%v prec=%d logScale=%d slots=%d n=%d shallowCopy=%v", rt, prec, logS, slots, n, shallow)
+					vals := make([]*bignum.Complex, n)
+					for i := range vals {
+						mk := func() *big.Float {
+							k := new(big.Int).SetUint64(c.rng.U64())
+							for w := 0; w < 4; w++ {
+								k.Lsh(k, 64).Add(k, new(big.Int).SetUint64(c.rng.U64()))
+							}
+							f := new(big.Float).SetPrec(prec).SetInt(k)
+							f.SetMantExp(f, -321) // in [0, 0.5)
+							if c.rng.Intn(2) == 0 {
+								f.Neg(f)
+							}
+							return f
+						}
+						vals[i] = &bignum.Complex{mk(), mk()}
+						if rt == ring.ConjugateInvariant {
+							vals[i][1] = new(big.Float).SetPrec(prec)
+						}
+					}
+					eff := logS
+					if int(prec) < eff {
+						eff = int(prec)
+					}
+					tolLog := -(eff - logN - 8)
+					if -(int(prec) - logN - 12) > tolLog {
+						tolLog = -(int(prec) - logN - 12)
+					}
+					d := Try(func() string {
+						pt := ckks.NewPlaintext(params, params.MaxLevel())
+						pt.Scale = rlwe.NewScale(new(big.Float).SetPrec(128).SetMantExp(big.NewFloat(1), logS))
+						pt.LogDimensions.Cols = ls
+						if err := ecd.Encode(vals, pt); err != nil {
+							return "encode error"
+						}
+						have := make([]*bignum.Complex, slots)
+						if err := ecd.Decode(pt, have); err != nil {
+							return "decode error"
+						}
+						for i := 0; i < slots; i++ {
+							wr, wi := new(big.Float), new(big.Float)
+							if i < n {
+								wr, wi = vals[i][0], vals[i][1]
+							}
+							for part, pr := range [][2]*big.Float{{have[i][0], wr}, {have[i][1], wi}} {
+								if pr[0] == nil {
+									continue
+								}
+								diff := new(big.Float).SetPrec(prec+64).Sub(pr[0], pr[1])
+								if l := c07cLog2Abs(diff); l > tolLog {
+									return fmt.Sprintf("Encode/Decode slot %d part %d: error 2^%d, bound 2^%d", i, part, l, tolLog)
+								}
+							}
+						}
+						if prec > 53 {
+							// IFFT then FFT on the values themselves
+							buf := make([]*bignum.Complex, slots)
+							for i := range buf {
+								buf[i] = &bignum.Complex{new(big.Float).SetPrec(prec), new(big.Float).SetPrec(prec)}
+								if i < n {
+									buf[i][0].Set(vals[i][0])
+									buf[i][1].Set(vals[i][1])
+								}
+							}
+							if err := ecd.IFFT(buf, ls); err != nil {
+								return "IFFT error"
+							}
+							if err := ecd.FFT(buf, ls); err != nil {
+								return "FFT error"
+							}
+							for i := 0; i < n; i++ {
+								for part := 0; part < 2; part++ {
+									diff := new(big.Float).SetPrec(prec+64).Sub(buf[i][part], vals[i][part])
+									if l := c07cLog2Abs(diff); l > -(int(prec) - logN - 12) {
+										return fmt.Sprintf("FFT(IFFT) slot %d part %d: error 2^%d at precision %d", i, part, l, prec)
+									}
+								}
+							}
+						}
+						return ""
+					})
+					key := "C07/ckks-encoder-precision-sweep"
+					if shallow {
+						key = "C07/ckks-encoder-shallowcopy-precision"
+					}
+					c.Probe("encoder_precision_sweep", args, key, d)
+				}
+			}
+		}
+	}
+}
+
 func genC07CKKS(c *Ctx) {
 	envs := []*c07cEnv{
 		c07cNewEnv("S5", 5, []int{55, 45, 45}, 45, ring.Standard, 128),
@@ -1513,6 +1727,8 @@ func genC07CKKS(c *Ctx) {
 			c.Emit(fmt.Sprintf("ckks bitrev %d %d", bits, i), U(utils.BitReverse64(uint64(i), bits)))
 		}
 	}
+	probeBignum(c)
+	probePrecisionSweep(c)
 	for _, e := range envs {
 		e.tieSlots(c)
 		e.tiePoly(c)
